@@ -16,3 +16,10 @@ for l in open(sys.argv[1]):
 print(f"baseline: pass={p} fail={f}"); print("\n".join(failed))
 PY
 rm -f $out
+# --all: also the packages that only link with -ldflags=-checklinkname=0 (not part of the pinned
+# suite, but the repository's own tests): db, dnsserver, fbserver, whoami, logger, cmd
+if [ "$1" = "--all" ]; then
+  (cd /repo/dnsrocks && go test -mod=mod -vet=off -count=1 -ldflags=-checklinkname=0 ./db/ ./fbserver/ ./whoami/ ./logger/ ./cmd/... 2>&1 | tail -8
+   go test -mod=mod -vet=off -count=1 -ldflags=-checklinkname=0 -skip TestFBDNSDBBadPathDontWrite ./dnsserver/... 2>&1 | tail -4)
+  git -C /repo checkout -- dnsrocks/go.mod dnsrocks/go.sum 2>/dev/null
+fi
